@@ -1,6 +1,6 @@
 (* Dispatcher for the Ser area (C12, C14): executable entry points used by the
    correspondence checks gen/c12.py and gen/c14.py. *)
-From FendV Require Import Base.Prelude Ser.Generated.BuiltinNames Ser.Codec Ser.Cfg Ser.Witness.
+From FendV Require Import Base.Prelude Ser.Generated.BuiltinNames Ser.Codec Ser.Cfg Ser.Witness Ser.Variants.
 Open Scope N_scope.
 
 
@@ -98,7 +98,8 @@ Definition sx_flags (c : cfg) (v : value) : list sx :=
   [sx_bool (wfc_value as_names (c_cap c) (c_sz c) v); sx_bool (wfs_value v); sx_bool (has_scope_value v);
    sx_bool (names_ok_value from_names v); sx_N (size_value v);
    (* every literal is accepted or is one of the five listed ones *)
-   sx_bool (names_ok_value (from_names ++ known_missing_names) v)].
+   sx_bool (names_ok_value (from_names ++ known_missing_names) v);
+   sx_N (value_tag v)].
 
 Definition sx_entry (c : cfg) (kv : bytes * value) : sx :=
   XL (XS (fst kv) :: XS (ser_entry kv) :: sx_flags c (snd kv) ++ [XS (ser_entry (fst kv, canon_value (snd kv)))]).
@@ -194,6 +195,19 @@ Definition run_ser : dispatcher := fun op args =>
     | c :: chunks =>
       match as_cfg c, as_chunks chunks with
       | Some c, Some img => Some (sx_out (fun (m : vars) rest => [XL (map (fun kv => XL [XS (fst kv); sx_value (snd kv)]) m); sx_N (len_N rest)]) (de_vars c img))
+      | _, _ => Some sx_bad
+      end
+    | _ => Some sx_bad
+    end
+  else if opeq op "variants" then
+    match args with
+    | c :: chunks =>
+      match as_cfg c, as_chunks chunks with
+      | Some c, Some img =>
+        match de_vars c img with
+        | (Ok (m, _), _) => Some (XL (map XS (variant_images m)))
+        | _ => Some (XL [])
+        end
       | _, _ => Some sx_bad
       end
     | _ => Some sx_bad
